@@ -106,7 +106,7 @@ def run(ctx: Check) -> int:
     from harness import runstate as R
     ctx.prove(MODULE, REQUIRED)
     pr = R.probe()
-    cfg = (pr["guard"], True, pr["prev"])
+    cfg = dict(pr, clocks=True)
     ctx.extra["tree_variant"] = pr
     runner = R.Runner("c07", cfg)
     corpus = [c for c in load_corpus("C07")] or [WITNESS_HOLD, WITNESS_RESTART]
@@ -135,7 +135,7 @@ def run(ctx: Check) -> int:
     if all_mout and len(all_mout) == len(all_cases):
         def mutant(c):
             ls = list(runner.lines(c))
-            ls[0] = R.cfg_line(cfg[0], False, cfg[2], "c07")
+            ls[0] = R.cfg_line(dict(cfg, clocks=False), "c07")
             return ls
         n = len(streams["corpus"]) + len(streams["exhaustive"])
         ctx.selftest("exhaustive", "RunState", all_cases[:n], mutant, all_mout[:n])
@@ -150,7 +150,7 @@ def run(ctx: Check) -> int:
 def search(ctx: Check) -> None:
     from harness import runstate as R
     for c in [WITNESS_HOLD, WITNESS_RESTART] + [R.gen_session(ctx.rng, 40, sets=False) for _ in range(ctx.n(300, 3000))]:
-        _, _, recs = R.execute(c, "c07", (False, True, False))
+        _, _, recs = R.execute(c, "c07", dict(clocks=True))
         for f in oracle(c, recs):
             ctx.fail(f)
         if ctx.failures:
@@ -164,7 +164,7 @@ def replay(obj) -> int:
         print(json.dumps(obj, indent=1)[:2000])
         return 0
     pr = R.probe()
-    cfg = (pr["guard"], True, pr["prev"])
+    cfg = dict(pr, clocks=True)
     lines, outs, recs = R.execute(case, "c07", cfg)
     mout = drive("RunState", [lines])[0]
     for ln, a, b in zip(lines, outs, mout):
